@@ -721,14 +721,25 @@ class R5:
             self.rid = rid
         self.only = only_funcs
 
-    def handler_ok(self, f, tr):
-        """try statement whose handlers catch std exceptions and report."""
+    @staticmethod
+    def covers(tname, fam):
+        """does a handler for `tname` catch an exception of family fam ("runtime", "logic", None = unknown)?"""
+        import re as _re
+        if tname == "..." or _re.search(r"\bexception\b", tname) and "runtime" not in tname and "logic" not in tname:
+            return True
+        if "runtime_error" in tname:
+            return fam == "runtime"
+        if "logic_error" in tname or "invalid_argument" in tname or "out_of_range" in tname or "length_error" in tname:
+            return fam == "logic"
+        return False
+
+    def handler_ok(self, f, tr, fam=None):
+        """try statement whose handlers catch the exception family and report."""
         hs = X.kids(tr)[1:]
         for h in hs:
             ct = h.get("ct", -1)
             tname = f.typestr(ct) if ct >= 0 else "..."
-            catches = tname == "..." or "exception" in tname or "runtime_error" in tname or "logic_error" in tname
-            if not catches:
+            if not self.covers(tname, fam):
                 continue
             reports = X.mentions(h, lambda x: x["k"] in ("CallExpr", "CXXMemberCallExpr") and (
                 x.get("cq") in ERROR_FUNCS))
@@ -737,19 +748,19 @@ class R5:
                 return True
         return False
 
-    def lexically_contained(self, f, n):
+    def lexically_contained(self, f, n, fam=None):
         cur = n
         for a in f.ancestors(n):
             if a["k"] == "CXXTryStmt":
                 ks = X.kids(a)
-                if ks and ks[0] is cur and self.handler_ok(f, a):
+                if ks and ks[0] is cur and self.handler_ok(f, a, fam):
                     return a
             cur = a
         return None
 
-    def contained(self, f, n, depth=0, seen=None):
+    def contained(self, f, n, depth=0, seen=None, fam=None):
         seen = seen or set()
-        if self.lexically_contained(f, n) is not None:
+        if self.lexically_contained(f, n, fam) is not None:
             return "try in %s" % f.q
         if depth > 5 or f.m in seen:
             return None
@@ -759,7 +770,7 @@ class R5:
             return None
         why = []
         for g, call in callers:
-            r = self.contained(g, call, depth + 1, seen)
+            r = self.contained(g, call, depth + 1, seen, fam)
             if not r:
                 return None
             why.append(r)
@@ -805,7 +816,12 @@ class R5:
                                 True, f.loc(n), "substr(%d, ..) on `%s` is dominated by a test of its size" % (pos, X.re_strip(rk)), "", f.q)
                 if not kind:
                     continue
-                why = self.contained(f, n)
+                # family of what is thrown: std::sto*, at(), substr() throw logic errors (invalid_argument / out_of_range)
+                fam = "logic"
+                if kind == "throw":
+                    tk = X.key(X.kids(n)[0], f) if X.kids(n) else ""
+                    fam = "runtime" if "runtime_error" in tk else ("logic" if ("logic_error" in tk or "invalid_argument" in tk or "out_of_range" in tk) else None)
+                why = self.contained(f, n, fam=fam)
                 what = X.text(X.kids(n)[0], f)[:80] if kind == "throw" and X.kids(n) else kind
                 key = "%s|%s|%s" % (f.q, kind, what)
                 prev = res.get(key)
